@@ -91,6 +91,14 @@ static bool wasObsoleteAt(KSI_HashAlgorithm algorithm, time_t at);
 static int calendarChainAggrAlgorithmState(KSI_CTX *ctx, const KSI_CalendarHashChain *calHshChain, bool (*inspector)(KSI_HashAlgorithm, time_t), bool *status);
 static int signatureCalendarChainHashAlgorithmDeprecatedAtPubTime(KSI_VerificationContext *info, KSI_RuleVerificationResult *result, const KSI_VerificationStep step, const char *rule);
 
+/**
+ * Converts a 64 bit KSI time to time_t without letting times beyond the range of time_t turn negative.
+ */
+static time_t integerToTime(const KSI_Integer *t) {
+	KSI_uint64_t v = KSI_Integer_getUInt64(t);
+	return v > (KSI_uint64_t)0x7fffffffffffffffLL ? (time_t)0x7fffffffffffffffLL : (time_t)v;
+}
+
 int KSI_VerificationRule_AggregationChainInputLevelVerification(KSI_VerificationContext *info, KSI_RuleVerificationResult *result) {
 	int res = KSI_UNKNOWN_ERROR;
 	KSI_AggregationHashChain *firstChain = NULL;
@@ -235,7 +243,7 @@ int KSI_VerificationRule_AggregationChainInputHashAlgorithmVerification(KSI_Veri
 		goto cleanup;
 	}
 
-	res = KSI_checkHashAlgorithmAt(algId, (time_t)KSI_Integer_getUInt64(signTime));
+	res = KSI_checkHashAlgorithmAt(algId, integerToTime(signTime));
 	switch (res) {
 		case KSI_OK:
 		case KSI_UNKNOWN_HASH_ALGORITHM_ID:
@@ -364,7 +372,7 @@ int KSI_VerificationRule_Rfc3161RecordOutputHashAlgorithmVerification(KSI_Verifi
 		goto cleanup;
 	}
 
-	res = KSI_checkHashAlgorithmAt(algorithm, (time_t)KSI_Integer_getUInt64(aggrTime));
+	res = KSI_checkHashAlgorithmAt(algorithm, integerToTime(aggrTime));
 	switch (res) {
 		case KSI_OK:
 		case KSI_UNKNOWN_HASH_ALGORITHM_ID:
@@ -431,7 +439,7 @@ int KSI_VerificationRule_Rfc3161RecordHashAlgorithmVerification(KSI_Verification
 		goto cleanup;
 	}
 
-	res = KSI_checkHashAlgorithmAt((KSI_HashAlgorithm)KSI_Integer_getUInt64(algorithm), (time_t)KSI_Integer_getUInt64(aggrTime));
+	res = KSI_checkHashAlgorithmAt((KSI_HashAlgorithm)KSI_Integer_getUInt64(algorithm), integerToTime(aggrTime));
 	switch (res) {
 		case KSI_OK:
 		case KSI_UNKNOWN_HASH_ALGORITHM_ID:
@@ -459,7 +467,7 @@ int KSI_VerificationRule_Rfc3161RecordHashAlgorithmVerification(KSI_Verification
 		goto cleanup;
 	}
 
-	res = KSI_checkHashAlgorithmAt((KSI_HashAlgorithm)KSI_Integer_getUInt64(algorithm), (time_t)KSI_Integer_getUInt64(aggrTime));
+	res = KSI_checkHashAlgorithmAt((KSI_HashAlgorithm)KSI_Integer_getUInt64(algorithm), integerToTime(aggrTime));
 	switch (res) {
 		case KSI_OK:
 		case KSI_UNKNOWN_HASH_ALGORITHM_ID:
@@ -1107,7 +1115,7 @@ int KSI_VerificationRule_AggregationChainHashAlgorithmVerification(KSI_Verificat
 			goto cleanup;
 		}
 
-		res = KSI_checkHashAlgorithmAt((KSI_HashAlgorithm)KSI_Integer_getUInt64(algorithm), (time_t)KSI_Integer_getUInt64(aggrTime));
+		res = KSI_checkHashAlgorithmAt((KSI_HashAlgorithm)KSI_Integer_getUInt64(algorithm), integerToTime(aggrTime));
 		switch (res) {
 			case KSI_OK:
 			case KSI_UNKNOWN_HASH_ALGORITHM_ID:
@@ -1775,7 +1783,7 @@ static int calendarChainAggrAlgorithmState(KSI_CTX *ctx, const KSI_CalendarHashC
 			goto cleanup;
 		}
 
-		if (inspector(algId, (time_t)KSI_Integer_getUInt64(pubTime))) {
+		if (inspector(algId, integerToTime(pubTime))) {
 			*status = true;
 			res = KSI_OK;
 			goto cleanup;
